@@ -23,7 +23,8 @@ EXTENDS AppMon, VfEmit
 CONSTANTS Scenarios,      \* set of scenarios: [I, T, R, conns, userAt, horizon]
           StampAlways,    \* TRUE: every ping overwrites last_ping_tm (the repaired C16 defect)
           CloseAsError,   \* TRUE: a server close frame goes through the error path (the repaired C14 defect)
-          CheckTorn       \* TRUE: check() reads last_ping_tm twice, the ping thread may run in between (the repaired C16 race)
+          CheckTorn,      \* TRUE: check() reads last_ping_tm twice, the ping thread may run in between (the repaired C16 race)
+          BlockingRead    \* TRUE: read() waits for the rest of a frame without bound (the repaired C16 defect: silence inside a frame)
 
 VARIABLES sc, now, pc, keepRunning, sockOpen, cid, reconnecting, netQ, netSched, wake,
           lastPing, lastPong, pingPc, pingDue, stopPing, pingN, userDone,
@@ -56,6 +57,7 @@ SrvEv(k) ==
     [] k = "pong"  -> [ev |-> "srv", t |-> now, cid |-> cid, kind |-> "pong", data |-> <<>>, op |-> 10, hasBody |-> FALSE, status |-> 0, reason |-> <<>>]
     [] k = "close" -> [ev |-> "srv", t |-> now, cid |-> cid, kind |-> "close", data |-> <<>>, op |-> 8, hasBody |-> TRUE, status |-> 1000, reason |-> <<98>>]
     [] k = "eof"   -> [ev |-> "srv", t |-> now, cid |-> cid, kind |-> "eof", data |-> <<>>, op |-> 0, hasBody |-> FALSE, status |-> 0, reason |-> <<>>]
+    [] k = "partial" -> [ev |-> "srv", t |-> now, cid |-> cid, kind |-> "partial", data |-> <<>>, op |-> 0, hasBody |-> FALSE, status |-> 0, reason |-> <<>>]
 
 Conn == sc.conns[cid + 1]
 HaveConn == cid + 1 <= Len(sc.conns)
@@ -134,8 +136,21 @@ Read ==
                                  ELSE pc' = "teardown" /\ closeFrame' = [kind |-> "close"] /\ UNCH(<<lastPong, pendingErr, mon, bad>>)
                [] k = "eof" -> pc' = "disconnect" /\ pendingErr' = "WebSocketConnectionClosedException"
                                /\ UNCH(<<lastPong, closeFrame, mon, bad>>)
-  /\ UNCH(<<sc, now, keepRunning, sockOpen, cid, reconnecting, netSched, wake, lastPing, pingPc, pingDue, stopPing,
+               \* the first bytes of a frame and then nothing: the read waits for the rest - with a ping timeout for at
+               \* most that long, then it comes back to the loop (the bytes stay buffered) and check() judges the peer
+               [] k = "partial" -> pc' = (IF BlockingRead \/ sc.T <= 0 THEN "stuck" ELSE "readwait")
+                                   /\ UNCH(<<lastPong, closeFrame, pendingErr, mon, bad>>)
+  /\ wake' = IF pc' = "readwait" THEN now + sc.T ELSE wake
+  /\ UNCH(<<sc, now, keepRunning, sockOpen, cid, reconnecting, netSched, lastPing, pingPc, pingDue, stopPing,
             pingN, userDone, hasErrored, tornDown>>)
+
+\* a read that waits inside a frame: ended by its timeout, or by close() from another thread (the transport is gone)
+ReadWait ==
+  /\ pc \in {"readwait", "stuck"}
+  /\ \/ ~sockOpen /\ pc' = "teardown"
+     \/ sockOpen /\ pc = "readwait" /\ now = wake /\ pc' = "check"
+  /\ UNCH(<<sc, now, keepRunning, sockOpen, cid, reconnecting, netQ, netSched, wake, lastPing, lastPong, pingPc, pingDue, stopPing,
+            pingN, userDone, hasErrored, tornDown, closeFrame, pendingErr, mon, bad>>)
 
 \* check(): the ping/pong timeout predicate, exactly as the code writes it.  The code reads the ping stamp once
 \* (CheckTorn = FALSE); the earlier code read it for the expiry test and again for the pong tests, two steps with a
@@ -247,12 +262,13 @@ Deliver ==
 (* ------------------------------ Clock ------------------------------------- *)
 MainCanMove == pc \in {"start", "dial", "looptest", "read", "check", "check2", "disconnect", "afterloop", "teardown"}
                \/ (pc = "select" /\ (netQ # <<>> \/ ~sockOpen \/ now = wake))
+               \/ (pc = "readwait" /\ (~sockOpen \/ now = wake)) \/ (pc = "stuck" /\ ~sockOpen)
                \/ (pc = "rsleep" /\ now = wake)
                \/ (pc = "return" /\ pingPc \in {"off", "stopped"})
 PingCanMove == pingPc \in {"wait1", "loop"} /\ (stopPing \/ ~keepRunning \/ now = pingDue)
 UserCanMove == ~userDone /\ sc.userAt >= 0 /\ now = sc.userAt /\ pc # "start"
 NetCanMove == \E d \in netSched : d.t = now
-Deadlines == (IF pc \in {"select", "rsleep"} THEN {wake} ELSE {})
+Deadlines == (IF pc \in {"select", "rsleep", "readwait"} THEN {wake} ELSE {})
              \cup (IF pingPc \in {"wait1", "loop"} THEN {pingDue} ELSE {})
              \cup (IF ~userDone /\ sc.userAt >= 0 THEN {sc.userAt} ELSE {})
              \cup {d.t : d \in netSched}
@@ -265,7 +281,7 @@ Tick ==
 
 Next == Check \/ Check2
         \/ ((Start \/ Dial \/ LoopTest \/ SelectWake \/ Read \/ Disconnect \/ AfterLoop \/ ReconnectWake \/ Teardown \/ Return
-             \/ PingStep \/ UserClose \/ Deliver \/ Tick) /\ UNCHANGED chk)
+             \/ ReadWait \/ PingStep \/ UserClose \/ Deliver \/ Tick) /\ UNCHANGED chk)
 Spec == Init /\ [][Next]_vars /\ WF_vars(Next)
 
 (* ------------------------------ properties -------------------------------- *)
